@@ -407,7 +407,7 @@ def _resolve_import(rule, target):
 
     # adjust relative URI references
     log.info('@import: Adjusting paths for %r' % rule.href, neverraise=True)
-    replaceUrls(importedSheet, Replacer(rule.href), ignoreImportRules=True)
+    replaceUrls(importedSheet, Replacer(rule.href))
 
     try:
         media_proxy = _check_media_proxy(rule, importedSheet)
